@@ -1369,6 +1369,7 @@ func c12BufferSize(c *Ctx, rule string, roles bwsRoles) {
 			wantIvl = defIvl
 		}
 		seqs, trunc := ConcPaths(fn, ConcCfg{
+			InlineAny: smallGenericHelper,
 			Conc: func(d string) (int64, bool) {
 				switch d {
 				case rn + ".Size":
